@@ -10,7 +10,7 @@ Never imports a middleware module.  Library split (BUILDING rule 2):
 
 A *link verdict* is one of OK / FAIL / OPEN.  OPEN = the property statement leaves the verdict
 to the implementation (high-S or non-strict-DER signature that nevertheless carries a verifying
-(r, s); key encodings other than the documented one; messages longer than the documented struct;
+(r, s); messages longer than the documented struct;
 element kinds chained in an order the statement does not speak about).
 """
 import hashlib
@@ -470,14 +470,15 @@ def p256_from_point(b):
     try:
         if len(b) == 65 and b[0] == 4:
             return ec.EllipticCurvePublicKey.from_encoded_point(ec.SECP256R1(), b), True
+        # the other encodings of a point the loader accepts: the key is the point, whatever its spelling
         if len(b) == 64:
-            return ec.EllipticCurvePublicKey.from_encoded_point(ec.SECP256R1(), b"\x04" + b), False
+            return ec.EllipticCurvePublicKey.from_encoded_point(ec.SECP256R1(), b"\x04" + b), True
         if len(b) == 33 and b[0] in (2, 3):
-            return ec.EllipticCurvePublicKey.from_encoded_point(ec.SECP256R1(), b), False
+            return ec.EllipticCurvePublicKey.from_encoded_point(ec.SECP256R1(), b), True
         if len(b) == 65 and b[0] in (6, 7):
             k = ec.EllipticCurvePublicKey.from_encoded_point(ec.SECP256R1(), b"\x04" + b[1:])
             if (b[-1] & 1) == (b[0] & 1):
-                return k, False
+                return k, True
     except Exception:
         return None
     return None
